@@ -1,5 +1,10 @@
 package eventhandler
 
+// F19 (C12): the wallet (eth2-key-manager) stores an account and then its index entry with two separate direct writes, and
+// ekm.AddShare decided "absent" on the index alone: a failure or stop between the two writes, a restart and the re-applied
+// block left TWO account records holding the same secret share, and a later ValidatorRemoved deleted only the indexed one -
+// an orphan record with the removed validator's key share stayed in the database.
+
 import (
 	"bytes"
 	"context"
@@ -242,7 +247,7 @@ func sideRun(t *testing.T, inject bool) (afterAdd, afterRemove int) {
 	return afterAdd, afterRemove
 }
 
-func TestSideC12f_FailureBetweenAccountAndWalletWrite_DuplicatesStoredKeyShare(t *testing.T) {
+func TestVerifF19_SideC12f_FailureBetweenAccountAndWalletWrite_DuplicatesStoredKeyShare(t *testing.T) {
 	wantAdd, wantRemove := sideRun(t, false)
 	require.Equal(t, 1, wantAdd, "uninterrupted run: one stored key share")
 	require.Equal(t, 0, wantRemove, "uninterrupted run: no stored key share after removal")
